@@ -18,11 +18,14 @@ Proof. exact unknown_retained. Qed.
 
 (* re-emitted and counted: the next Marshal of that message returns bytes whose length Size() reports and
    which the reference reads back as the same message as the original input -- unknown fields of every
-   nesting level included, byte for byte *)
+   nesting level included, byte for byte.  The size hypothesis is the one of C04/C05 (Marshal's int32
+   size arithmetic): it does not follow from the legality of the input, because re-marshaling a list
+   that is declared unpacked but arrived packed puts a key before every element. *)
 Theorem C07_unknown_roundtrip : forall sc ty p fast dest m al,
   schema_ok sc = true -> legal_msg sc (S (length p)) ty p = true -> no_dup_msgs sc (S (length p)) ty p = true ->
   gen_unmarshal_into sc fast ty dest p = UOk m al ->
   neg_zero_free sc (S (vdepth m)) ty m = true ->
+  N.of_nat (gen_size sc (S (vdepth m)) ty m) < 2^31 ->
   exists b v v', gen_marshal sc ty m = MBytes b /\ length b = gen_size sc (S (vdepth m)) ty m /\
     ref_decode sc (S (length p)) ty p = Some v /\ ref_decode sc (S (length b)) ty b = Some v' /\
     forall fuel, (vdepth v < fuel)%nat -> (vdepth v' < fuel)%nat -> normalize sc fuel ty v' = normalize sc fuel ty v.
